@@ -71,6 +71,19 @@ for meta in sorted(glob.glob(V+'/benign_patches/*/*/meta.json')):
         bjobs.append((name,{os.path.join(REPO,f):open(os.path.join(tmp,f)).read() for f in files},''))
     finally:
         shutil.rmtree(tmp,ignore_errors=True)
+# a control is swept for this property when it touches a file in which the property has obligations; the others can change
+# an obligation of this property only through a helper in another file, and all controls are run against
+# ALL properties by scripts/benign_probe.py / scripts/benign_agents.py whenever a rule changes
+try:
+    dirs=set(json.load(open(V+'/evidence/%s.json'%prop))['coverage'].get('files_with_obligations',[]))
+except Exception:
+    dirs=set()
+def touches(ov):
+    if ov is None or not dirs: return True
+    return any(os.path.relpath(f,REPO) in dirs for f in ov)
+b_all=len(bjobs)
+bjobs=[j for j in bjobs if touches(j[1])]
+b_na=b_all-len(bjobs)
 def run(job):
     name,ov,why=job
     if ov is None: return name,'stale',why
@@ -84,13 +97,13 @@ def run(job):
     fired=sorted(set(l.split(': ')[1].split(' ')[0] for l in out.splitlines() if ('[violated]' in l or '[undecided]' in l) and ': ' in l))
     return name,('detected' if p.returncode==1 else 'missed'),','.join(fired)
 res=[]
-with cf.ThreadPoolExecutor(6) as ex:
+with cf.ThreadPoolExecutor(12) as ex:
     for x in ex.map(run,jobs): res.append(x)
 bres=[]
-with cf.ThreadPoolExecutor(6) as ex:
+with cf.ThreadPoolExecutor(12) as ex:
     for x in ex.map(run,bjobs): bres.append(x)
 bsilent=[x for x in bres if x[1]=='missed']; balarm=[x for x in bres if x[1]=='detected']; bstale=[x for x in bres if x[1] in('stale','does-not-compile')]
-print("%s negative controls: %d behaviour-preserving variants, %d silent, %d FALSE ALARMS"%(prop,len(bres),len(bsilent),len(balarm)))
+print("%s negative controls: %d behaviour-preserving variants touching the property's files (%d others not swept), %d silent, %d FALSE ALARMS"%(prop,len(bres),b_na,len(bsilent),len(balarm)))
 for x in balarm: print("  FALSE ALARM on behaviour-preserving edit:",x[0],x[2])
 det=[x for x in res if x[1]=='detected']; missed=[x for x in res if x[1]=='missed']; stale=[x for x in res if x[1] in('stale','does-not-compile')]
 print("%s sweep: %d variants, %d detected, %d missed, %d stale"%(prop,len(res),len(det),len(missed),len(stale)))
@@ -101,7 +114,7 @@ try:
     ev=json.load(open(ev_path))
     ev['coverage'].update({'mutants_total':len(res),'mutants_detected':len(det),'mutants_missed':[x[0] for x in missed],'mutants_stale':[x[0]+' ('+x[2]+')' for x in stale],
        'mutants':[{'variant':x[0],'result':x[1],'rules_fired':x[2]} for x in res],
-       'benign_total':len(bres),'benign_silent':len(bsilent),'benign_false_alarms':[x[0]+' ('+x[2]+')' for x in balarm],
+       'benign_total':len(bres),'benign_not_touching_the_propertys_files':b_na,'benign_silent':len(bsilent),'benign_false_alarms':[x[0]+' ('+x[2]+')' for x in balarm],
        'mutant_rule':'each variant is the current tree of /repo with one breaking edit applied in memory (find/replace from mutants/mutants.py, or a stored sub-agent change from seeded/); detected = the property check exits 1 on the variant'})
     ev['wall_s']=round(time.time()-t0,1)
     json.dump(ev,open(ev_path,'w'),indent=1)
